@@ -246,9 +246,13 @@ theorem doStep_ok (hR : RLocal R) (s : St) (i : Inv s) (hout : s.out = []) (op :
     simp only [doStep]
     exact dispatch_ok R hR s i o0 false true
   | connect =>
-    refine ⟨s.nextId + 1, ?_, by omega, by simp [reqOfOp]⟩
-    simp only [doStep]
-    exact (addIo_rs2 _ _ _).ok R (o0.same R rfl rfl rfl rfl rfl rfl rfl rfl rfl rfl)
+    by_cases hcl : s.closed = true
+    · refine ⟨s.nextId, ?_, Nat.le_refl _, by simp [reqOfOp]⟩
+      simp only [doStep, hcl, if_true]
+      exact o0
+    · refine ⟨s.nextId + 1, ?_, by omega, by simp [reqOfOp]⟩
+      simp only [doStep, hcl, Bool.false_eq_true, if_false]
+      exact (addIo_rs2 _ _ _).ok R (o0.same R rfl rfl rfl rfl rfl rfl rfl rfl rfl rfl)
   | cerr k =>
     refine ⟨s.nextId, ?_, Nat.le_refl _, by simp [reqOfOp]⟩
     simp only [doStep]
